@@ -389,6 +389,43 @@ func (e *Encoder) havocLoc(st *State, loc string, t types.Type) {
 func (e *Encoder) havocRange(st *State, s Val, elem types.Type) error {
 	c := e.c
 	intT := types.Typ[types.Int]
+	if sls, ok := structLeaves(c, elem); ok {
+		// struct elements without arrays: the cells that change are exactly the leaf fields of the elements in
+		// range, lfield(..lfield(lelem(base, i), f1).., fk); no recursion on the location is needed, and a cell
+		// with any other field id (a field of another struct type) is unchanged wherever it lives
+		byKey := map[string][]structLeaf{}
+		var keys []string
+		for _, l := range sls {
+			k := c.memKey(l.t)
+			if _, seen := byKey[k]; !seen {
+				keys = append(keys, k)
+			}
+			byKey[k] = append(byKey[k], l)
+		}
+		off := fmt.Sprintf("(soff %s)", s.S)
+		for _, key := range keys {
+			srt := c.memSort(byKey[key][0].t)
+			cur := st.get(c, key, srt)
+			n := c.fresh("M_" + key)
+			c.declare(n, srt)
+			var alts []string
+			for _, l := range byKey[key] {
+				// p = lfield(...lfield(lelem(base,i), path[0])..., path[k-1])
+				var conds []string
+				q := "p!h"
+				for k := len(l.path) - 1; k >= 0; k-- {
+					conds = append(conds, fmt.Sprintf("((_ is lfield) %s)", q), fmt.Sprintf("(= (fid %s) %d)", q, l.path[k]))
+					q = fmt.Sprintf("(fbase %s)", q)
+				}
+				conds = append(conds, fmt.Sprintf("(is_lelem %s)", q), fmt.Sprintf("(= (ebase %s) (sbase %s))", q, s.S),
+					c.cmp("<=", intT, off, fmt.Sprintf("(eidx %s)", q)), c.cmp("<", intT, fmt.Sprintf("(eidx %s)", q), c.binopIdx("+", off, fmt.Sprintf("(scap %s)", s.S))))
+				alts = append(alts, and(conds...))
+			}
+			c.assume(fmt.Sprintf("(forall ((p!h Loc)) (! (=> (not %s) (= (select %s p!h) (select %s p!h))) :pattern ((select %s p!h))))", or(alts...), n, cur, n))
+			st.mem[key] = n
+		}
+		return nil
+	}
 	var leaves []types.Type
 	var walk func(t types.Type)
 	walk = func(t types.Type) {
